@@ -1,4 +1,4 @@
-\* C03 spec-level negative control of the object layer: the harness sets StaleKey = TRUE and keeps
+\* C03 spec-level negative control of the object layer: the harness sets StaleKey = TRUE or NoResplit = TRUE and keeps
 \* ONE of the two invariants; TLC must report it violated after an assignment
 CONSTANTS
   HashOnString = FALSE
@@ -6,9 +6,10 @@ CONSTANTS
   StaleKey = FALSE
   NoResplit = FALSE
   Boundary = TRUE
+  MaxFull = 5
   Epochs <- E_two
   Revs <- R_two
-  UpChars = {48, 49, 126}
+  UpChars = {48, 49}
   MaxUp = 1
   Seps = FALSE
   Triples = FALSE
